@@ -291,6 +291,15 @@ void h_assert_fail(const char *e, const char *f, unsigned line, const char *fn) 
 // reads and rewrites it from several threads races on it exactly as it would on a global variable.  Every such call
 // made from inside the library is reported to the race detector as an access to a pseudo location.
 uint64_t g_process_state[3][70];
+// pthread_sigmask()/sigprocmask() called from inside the library: the kernel reads the new mask and writes the old one
+// through the caller's pointers -- accesses the instrumentation cannot see, reported here on the kernel's behalf
+void h_sigmask(const void *set, void *oldset, size_t n) {
+    simrt::yield_point(simrt::Y_SYSCALL, 34);
+    uintptr_t pc = (uintptr_t) __builtin_return_address(0);
+    if (set) simrt::on_access((uintptr_t) set, n, false, pc);
+    if (oldset) simrt::on_access((uintptr_t) oldset, n, true, pc);
+    RT.counters["probe.library_changed_signal_mask"]++;
+}
 uint64_t g_tsd_keys_created = 0; // thread-specific-data keys the library has created (a pool of 1024 per process)
 void h_process_state(int what, int arg, int is_write) {
     if (what == 3 || what == 4) { g_tsd_keys_created++; return; } // (fork handlers: the same kind of never-returned process-wide registration)
@@ -900,6 +909,7 @@ void install_hooks() {
     simos_hooks.raise_ = h_raise; simos_hooks.abort_ = h_abort; simos_hooks.assert_fail_ = h_assert_fail;
     simos_hooks.mutex_lock_ = simrt::hook_mutex_lock; simos_hooks.mutex_unlock_ = simrt::hook_mutex_unlock; simos_hooks.mutex_trylock_ = simrt::hook_mutex_trylock; simos_hooks.mutex_timedlock_ = simrt::hook_mutex_timedlock;
     simos_hooks.nanosleep_ = simrt::hook_nanosleep;
+    simos_hooks.sigmask_ = h_sigmask;
     simos_hooks.process_state_ = h_process_state; simos_hooks.getrlimit_ = h_getrlimit; simos_hooks.setrlimit_ = h_setrlimit;
 }
 
